@@ -146,8 +146,9 @@ struct vf_log_ghost { int disp; cJSON_bool disp_ret; size_t pv_end; } g_lg;
 
 /* ------------------------------------------------------------------ callee views of the sub-parsers (replaced in parse_value) */
 #if !defined(VF_ENF_parse_string) && !defined(VF_CONTAINER_VIEWS)
+/* parse_string reads the byte at the offset unchecked: a caller must have made sure there is one (C01) */
 static cJSON_bool parse_string(cJSON * const item, parse_buffer * const input_buffer)
-__CPROVER_requires(__CPROVER_is_fresh(item, sizeof(cJSON)) && PB_FRESH(input_buffer))
+__CPROVER_requires(__CPROVER_is_fresh(item, sizeof(cJSON)) && PB_FRESH(input_buffer) && input_buffer->offset < input_buffer->length)
 PARSE_COMMON(item, input_buffer)
 __CPROVER_ensures(__CPROVER_return_value ==> (item->type == cJSON_String && __CPROVER_is_fresh(item->valuestring, 1) && item->child == __CPROVER_old(item->child)))
 __CPROVER_ensures(__CPROVER_return_value ==> LIVE_SAME)
@@ -260,17 +261,20 @@ __CPROVER_requires(HOOKS_OK(global_hooks))
 #ifdef VF_ENF_cJSON_ParseWithLengthOpts
 __CPROVER_requires(g_del_calls == 0)
 __CPROVER_ensures((value == NULL || buffer_length == 0) ==> __CPROVER_return_value == NULL) /*@C01 C03*/
-/* failure: error pointer and reported position agree and lie inside the buffer, never past its last byte */
+/* failure: error pointer and reported position agree and lie inside the buffer, never past its last byte.
+ * (C20: the function body runs under the interference model of annotate rule R6 - every read of the shared error record and every call of
+ * cJSON_GetErrorPtr inside the library yields an arbitrary value - so what the caller gets back through return value and parse end
+ * provably does not depend on what other threads store there; the clauses on the caller-visible results carry the C20 tag.) */
 __CPROVER_ensures((__CPROVER_return_value == NULL && value != NULL) ==> (global_error.json == UVAL && (buffer_length == 0 ? GE_POS == 0 : GE_POS < buffer_length))) /*@C10*/
-__CPROVER_ensures((__CPROVER_return_value == NULL && value != NULL && return_parse_end != NULL) ==> PE == value + GE_POS) /*@C10*/
+__CPROVER_ensures((__CPROVER_return_value == NULL && value != NULL && return_parse_end != NULL) ==> PE == value + GE_POS) /*@C10 C20*/
 /* success: global error pointer NULL, parse end inside [value, value+len] */
 __CPROVER_ensures(__CPROVER_return_value != NULL ==> (global_error.json == NULL && GE_POS == 0)) /*@C10*/
-__CPROVER_ensures((__CPROVER_return_value != NULL && return_parse_end != NULL) ==> (__CPROVER_same_object(PE, value) && PE >= value && PE <= value + buffer_length)) /*@C10*/
+__CPROVER_ensures((__CPROVER_return_value != NULL && return_parse_end != NULL) ==> (__CPROVER_same_object(PE, value) && PE >= value && PE <= value + buffer_length)) /*@C10 C20*/
 /* the value parser's verdict decides, and without the termination requirement the parse end is where the value ended */
 __CPROVER_ensures((value != NULL && buffer_length > 0 && g_disp == D_VALUE && !g_disp_ret) ==> __CPROVER_return_value == NULL) /*@C03 C10*/
-__CPROVER_ensures((g_disp == D_VALUE && g_disp_ret && !require_null_terminated) ==> (__CPROVER_return_value != NULL && (return_parse_end == NULL || PE == value + g_pv_end))) /*@C02 C10*/
+__CPROVER_ensures((g_disp == D_VALUE && g_disp_ret && !require_null_terminated) ==> (__CPROVER_return_value != NULL && (return_parse_end == NULL || PE == value + g_pv_end))) /*@C02 C10 C20*/
 /* termination required: success => parse end designates a zero byte inside the buffer and only bytes <= 0x20 lie between the value and it */
-__CPROVER_ensures((__CPROVER_return_value != NULL && return_parse_end != NULL && require_null_terminated) ==> (PE < value + buffer_length && *PE == '\0' && PE >= value + g_pv_end)) /*@C10*/
+__CPROVER_ensures((__CPROVER_return_value != NULL && return_parse_end != NULL && require_null_terminated) ==> (PE < value + buffer_length && *PE == '\0' && PE >= value + g_pv_end)) /*@C10 C20*/
 __CPROVER_ensures((__CPROVER_return_value != NULL && return_parse_end != NULL && require_null_terminated && g_k >= g_pv_end && g_k < buffer_length && g_k < (size_t)(PE - value)) ==> UVAL[g_k] <= 32) /*@C10*/
 /* termination required: failure after a good value => the error position is a witness: a non-zero byte that is not whitespace, or the last byte */
 __CPROVER_ensures((__CPROVER_return_value == NULL && value != NULL && g_disp == D_VALUE && g_disp_ret && require_null_terminated && g_pv_end < buffer_length && GE_POS < buffer_length) ==> (GE_POS >= g_pv_end && UVAL[GE_POS] != 0 && (UVAL[GE_POS] > 32 || GE_POS + 1 == buffer_length))) /*@C10*/
@@ -313,6 +317,13 @@ __CPROVER_requires(buffer_length <= VF_MAXLEN && (value == NULL || __CPROVER_is_
 __CPROVER_ensures(g_pl_calls == 1 && g_pl_value == value && g_pl_len == buffer_length && g_pl_rpe == NULL && g_pl_rnt == 0 && g_pl_ret == __CPROVER_return_value) /*@C01 C02*/
 __CPROVER_assigns(global_error, GHOST_ALLOC, GHOST_STRTOD, GHOST_LOG, GHOST_PL);
 
+/* C20 interference model: inside any other library function a call of cJSON_GetErrorPtr yields an arbitrary pointer (another thread may
+ * store to the shared error record at any moment); the driver replaces such calls by this view in every contract unit on cJSON.c */
+CJSON_PUBLIC(const char *) cJSON_GetErrorPtr_any(void)
+__CPROVER_requires(1)
+__CPROVER_ensures(1)
+__CPROVER_assigns();
+
 CJSON_PUBLIC(const char *) cJSON_GetErrorPtr(void)
 __CPROVER_requires(global_error.json == NULL || (__CPROVER_POINTER_OFFSET(global_error.json) == 0 && global_error.position < __CPROVER_OBJECT_SIZE(global_error.json)))
 __CPROVER_ensures(global_error.json != NULL ==> __CPROVER_return_value == (const char*)global_error.json + global_error.position) /*@C10*/
@@ -323,5 +334,6 @@ __CPROVER_assigns();
 #include "c_print.h"
 #include "c_tree.h"
 #include "c_container.h"
+#include "c_printcont.h"
 
 #endif
